@@ -110,3 +110,28 @@ PROPS["C10"] = dict(
     jobs=[dict(name="c10", run="^TestPropC10$", kind="rapid", shards=16, checks={"quick": 20000, "thorough": 500000},
                guard={"quick": 900, "thorough": 7200})],
 )
+
+
+PROPS["C03"] = dict(
+    pkg="c03",
+    rule=("part A: random operator tables (1..16 binary operators, spellings of 1..3 characters from an operator alphabet, deliberately "
+          "prefix-related; 0..3 prefix operators, each either also binary - at any priority including the highest - or pure; optional "
+          "text aliases) x random expression trees (binary, prefix, call, index, member, method call, identifiers, numbers; depth <=5 quick, "
+          "<=7 thorough) x three renderings: fully parenthesised, minimal (derived with the independent reference parser: every pair of "
+          "parentheses whose removal leaves the reference tree unchanged is dropped) and random-redundant x tight or spaced joining (a "
+          "blank only where a lexer could merge adjacent tokens). Oracle: structural dump of the implementation AST == intended tree. "
+          "part B: valid value-language programs (C01 generator) as token lists and 1..6 single mutations each (delete, insert, duplicate, "
+          "swap, truncate); oracle: the reference parser (harness/pratt, precedence climbing + keyword grammar): it rejects => the "
+          "implementation must return an error; it accepts => identical tree (never truncated or regrouped). Non-trivial (A): the minimal "
+          "rendering has fewer parentheses than the full one and the tree has >=2 different binary operators or a prefix operator next to "
+          "a binary one; (B): every mutant; distinct = table + text."),
+    assumptions=["the reference parser (harness/pratt) implements the grammar as stated in the property: priority = declaration index, left-associative, postfix tightest, prefix-also-binary operator takes the maximal operand of higher-priority operators, pure prefix operator takes a postfix expression",
+                 "the parser's propagation of literal-valued lets (which happens without an optimizer too) is mirrored on the reference tree"],
+    jobs=[
+        dict(name="tables", run="^TestPropTables$", kind="rapid", shards=16, checks={"quick": 160000, "thorough": 4000000},
+             guard={"quick": 900, "thorough": 7200}),
+        dict(name="mutations", run="^TestPropMutations$", kind="rapid", shards=16, checks={"quick": 60000, "thorough": 1500000},
+             guard={"quick": 900, "thorough": 7200}),
+    ],
+    min_class_fraction={"prefix_op_is_highest_binary": 0.02, "table_with_text_aliases": 0.05, "mutant_rejected_by_grammar": 0.2, "mutant_still_well_formed": 0.02},
+)
